@@ -290,6 +290,36 @@ fn as_reversed(ctx: &mut Ctx, rng: &mut Rng) {
     ctx.drain_chain_hook(|| json!({"flavour": "as", "reversed-input": blocks_json(&blocks)}));
 }
 
+/// AS resources built with `AsResourcesBuilder`, spreading the blocks over
+/// several `blocks()` calls on the same builder (the result must be the union).
+fn as_builder_multi_call(ctx: &mut Ctx, rng: &mut Rng) {
+    use rpki::repository::resources::AsResourcesBuilder;
+    let fl = Flavour::As;
+    let seq = sequence(fl, rng, 6);
+    let model = fl.model(&seq.blocks);
+    let calls = 1 + rng.usize_below(3);
+    let mut builder = AsResourcesBuilder::new();
+    let chunk = (seq.blocks.len() / calls).max(1);
+    let mut used = 0;
+    for c in 0..calls {
+        let part: Vec<(u128, u128)> = if c + 1 == calls { seq.blocks[used.min(seq.blocks.len())..].to_vec() } else { seq.blocks.iter().skip(used).take(chunk).copied().collect() };
+        used += part.len();
+        let items: Vec<AsBlock> = part.iter().map(|(a, b)| as_block(*a, *b, rng)).collect();
+        builder.blocks(|b| {
+            for it in items {
+                b.push(it)
+            }
+        });
+    }
+    let d = || json!({"flavour": "as", "blocks": blocks_json(&seq.blocks), "calls": calls});
+    if let Some(res) = ctx.no_panic("as:resources-builder", d, || builder.finalize()) {
+        ctx.sig(&format!("as resources-builder calls={} {}", calls, seq.shape));
+        let blocks = res.to_blocks().unwrap_or_default();
+        check_set(ctx, fl, "resources-builder", &observe_as(&blocks), &model, d);
+    }
+    ctx.drain_chain_hook(d);
+}
+
 fn relation(a: &IntervalSet, b: &IntervalSet) -> &'static str {
     if a.is_empty() && b.is_empty() {
         "both-empty"
@@ -528,6 +558,7 @@ fn run_as(ctx: &mut Ctx) {
             }
         }
         as_reversed(ctx, &mut rng);
+        as_builder_multi_call(ctx, &mut rng);
     }
     // special constants
     let all = AsBlocks::all();
